@@ -23,6 +23,10 @@ type Env struct {
 	// OGStyle: how healthy children report status.observedGeneration:
 	// 0 = their generation, 1 = not at all, 2 = as a string, 3 = constant 0.
 	OGStyle int
+	// CondStyle: how healthy children write their conditions: 0 bare type/status/reason,
+	// 1 with RFC 3339 lastTransitionTime and message, 2 with a zone-less timestamp and, listed
+	// first, another condition carrying an empty timestamp and a string observedGeneration.
+	CondStyle int
 }
 
 func (e *Env) healthyOG(gen any) (any, bool) {
